@@ -20,6 +20,7 @@ to the next directive is its text):
   @proof after_loop <k>
   @proof end                      just before the closing brace of the body (unit functions only)
   @proof before <regex>           before the (unique) source line of the body matching regex
+  @proof before_all <regex> / after_all <regex>   the same hint before / after EVERY matching source line of the body
   @proof match_scrutinee <regex>  on the (unique) line `match E {`: wraps E as { let v = E; proof {..} v } so the hint sits after E is evaluated
   @proof after <regex>            after the (unique) source line of the body matching regex (line must end a statement)
   @ghost before <regex> / after <regex> / entry     like @proof but text is inserted verbatim (for `let ghost`)
